@@ -36,7 +36,11 @@ Init ==
 \* over its end (at most one refill per add); `newcontent' is the content kept afterwards.
 AddMany(s, kvs, avail, newcontent, o) ==
   LET r0     == rnd[s]
-      res    == LogAddAll(Cfg, sk[s], [i \in 1..Len(kvs) |-> <<Col(kvs[i][1]), kvs[i][2], NOf(kvs[i][2])>>], avail, 0)
+      \* kvs[i] = <<key, v>> or <<key, v, vnum>>: v is the number of unit increments attempted (a TLC
+      \* integer), vnum the multiplicity added to n_added when it exceeds TLC's integers (a multiplicity
+      \* of 2^32+7 behaves like any v >= UMax once every draw succeeds, but n_added grows by all of it)
+      res    == LogAddAll(Cfg, sk[s], [i \in 1..Len(kvs) |-> <<Col(kvs[i][1]), kvs[i][2],
+                                         IF Len(kvs[i]) = 3 THEN kvs[i][3] ELSE NOf(kvs[i][2])>>], avail, 0)
       j      == res.used
       refill == r0.ptr + j > B
       positions == IF refill
@@ -56,6 +60,8 @@ AddMany(s, kvs, avail, newcontent, o) ==
 OpRec(name, s) == [name |-> name, s |-> s, k |-> <<>>, v |-> 0, draws |-> 0, refill |-> FALSE, fresh_positions |-> TRUE]
 Add(s, k, v, avail, newcontent) ==
   AddMany(s, <<<<k, v>>>>, avail, newcontent, [OpRec("add", s) EXCEPT !.k = k, !.v = v])
+AddBig(s, k, v, vnum, avail, newcontent) ==
+  AddMany(s, <<<<k, v, vnum>>>>, avail, newcontent, [OpRec("add_big", s) EXCEPT !.k = k, !.v = v])
 \* update(list): add(key) per element; update(dict): add(key, value) per item;
 \* add_ngram / update_ngram: add(window) per window -- all through the one fold
 UpdateList(s, ks, avail, nc) == AddMany(s, [i \in 1..Len(ks) |-> <<ks[i], 1>>], avail, nc, OpRec("update_list", s))
